@@ -344,6 +344,59 @@ def run(repo, chk):
         chk.expect(good, "R-C14-4", "WaterNetworkModel.%s refuses (unless force) when a control requires the element, before deleting" % meth, loc(fn),
                    "raise must be under `not force` and a `control.requires()` membership test and precede the registry deletion")
 
+    # R-C14-4b: nothing is removed from the model before the registry had its chance to refuse: every remove_control in remove_node /
+    # remove_link is dominated by the registry's __delitem__ (a refused removal leaves the controls too)
+    from ..cfg import CFG
+    for meth in ("remove_node", "remove_link"):
+        fn = repo.func(MODEL, "WaterNetworkModel.%s" % meth)
+        g = CFG(fn)
+        dels = g.calling("__delitem__")
+        rcs = g.calling("remove_control")
+        idom = g.dominators()
+        for rc in rcs:
+            chk.expect(any(g.dominates(d, rc, idom) for d in dels), "R-C14-4b", "WaterNetworkModel.%s removes the element's controls only after the registry accepted the removal" % meth,
+                       loc(fn, g.node_ast(rc)), "with_control=True deletes the controls and then the registry refuses because the element is still in use: the refused removal changed the model",
+                       expected="remove_control dominated by %s.__delitem__" % ("_node_reg" if meth == "remove_node" else "_link_reg"), found=g.label(rc))
+        if not rcs or not dels:
+            raise AnchorError("WaterNetworkModel.%s: remove_control / __delitem__ calls not found" % meth)
+    # R-C14-7: no partial registration: in Link.__init__ every registry lookup that can raise precedes the first add_usage
+    li = repo.func(BASE, "Link.__init__")
+    chk.fn(li)
+    adds = [c for c in calls(li) if last_attr(c) == "add_usage"]
+    looks = [n for n in walk(li) if isinstance(n, ast.Subscript) and isinstance(n.ctx, ast.Load) and unparse(n.value).endswith("_node_reg")]
+    if len(adds) < 2 or len(looks) < 2:
+        raise AnchorError("Link.__init__: node lookups / add_usage calls not found")
+    first_add = min(c.lineno for c in adds)
+    late = [n for n in looks if n.lineno > first_add]
+    chk.expect(not late, "R-C14-7", "Link.__init__ looks up both end nodes before it records any usage", loc(li, late[0]) if late else loc(li),
+               "a link whose end node does not exist raises KeyError after the start node was already marked as used by it: the phantom record makes get_links_for_node raise "
+               "and remove_node refuse", expected="all self._node_reg[...] lookups before the first add_usage", found=[norm(n) for n in late])
+    # R-C14-1e: guards on pattern objects are identity tests: Pattern defines __len__, an empty pattern is falsy
+    falsy_classes = {cname for cname, c in repo.classes(ELEM).items() if any(isinstance(n, ast.FunctionDef) and n.name in ("__len__", "__bool__") for n in c.body)}
+    chk.sample({"rule": "R-C14-1e", "classes_with_len_or_bool": sorted(falsy_classes)})
+    for rname in ("NodeRegistry", "LinkRegistry", "SourceRegistry"):
+        if rname not in reg_classes:
+            continue
+        dfn, _c = find_delitem(repo, rname)
+        for lp in [n for n in walk(dfn) if isinstance(n, ast.For) and isinstance(n.iter, ast.Call) and last_attr(n.iter) == "pattern_list" and isinstance(n.target, ast.Name)]:
+            v = lp.target.id
+            for gd in [n for n in walk(lp) if isinstance(n, ast.If) and any(last_attr(c) == "remove_usage" for c in calls(n))]:
+                bare = isinstance(gd.test, ast.Name) and gd.test.id == v
+                chk.expect(not (bare and "Pattern" in falsy_classes), "R-C14-1e", "%s.__delitem__ tests the pattern of a demand for `is not None`, not for truthiness" % rname, loc(MODEL, gd),
+                           "Pattern defines __len__: a pattern without multipliers is falsy, so its usage record is not released and the pattern can never be removed",
+                           expected="if %s is not None" % v, found="if %s" % unparse(gd.test))
+    # R-C14-1f: usage records are keyed by names on both sides: an add_usage keyed by a raw parameter that may be an object
+    ad = repo.func(ELEM, "Junction.add_demand")
+    chk.fn(ad)
+    pnames = [a.arg for a in ad.args.args]
+    for c in [c for c in calls(ad) if last_attr(c) == "add_usage"]:
+        key = c.args[0]
+        raw = isinstance(key, ast.Name) and key.id in pnames
+        str_only = any(isinstance(a, ast.Assert) and ("isinstance(%s, str)" % (key.id if raw else "?")) in unparse(a) for a in walk(ad))
+        chk.expect(not raw or str_only, "R-C14-1f", "Junction.add_demand keys the pattern usage by the pattern's name", loc(ad, c),
+                   "the parameter may be a Pattern object (add_junction documents 'str or Pattern'); a record filed under the object is invisible to get_usage(name), "
+                   "so remove_pattern of a pattern in use is not refused", expected="<pattern>.name or a str", found=unparse(key))
+
     # ---------------------------------------------------------------- R-C14-3
     for rname in ("NodeRegistry", "LinkRegistry", "CurveRegistry"):
         c = reg_classes[rname]
@@ -570,6 +623,12 @@ def abstract_setter(fn, which, param, s0, e0, new):
     return usage
 
 WITNESSES = [
+    dict(name="controls-removed-before-refusal", file=MODEL, old="        self._node_reg.__delitem__(name)\n        if not force and with_control:\n            for i in x:\n                self.remove_control(i)\n",
+         new="        if not force and with_control:\n            for i in x:\n                self.remove_control(i)\n        self._node_reg.__delitem__(name)\n", rule="R-C14-4b"),
+    dict(name="usage-before-end-node-lookup", file=BASE, old="        self._end_node = self._node_reg[end_node_name]\n        # Register the link as a user of both nodes\n        self._node_reg.add_usage(start_node_name, (link_name, self.link_type))\n",
+         new="        self._node_reg.add_usage(start_node_name, (link_name, self.link_type))\n        self._end_node = self._node_reg[end_node_name]\n", rule="R-C14-7"),
+    dict(name="empty-pattern-not-released", file=MODEL, old="                    if pat is not None:  # an existing pattern without multipliers is falsy", new="                    if pat:", rule="R-C14-1e"),
+    dict(name="usage-keyed-by-object", file=ELEM, old="            self._pattern_reg.add_usage(pattern_key, (self.name, 'Junction'))", new="            self._pattern_reg.add_usage(pattern_name, (self.name, 'Junction'))", rule="R-C14-1f"),
     dict(name="end-setter-unconditional-remove", file=BASE, old="        if self.end_node_name != self.start_node_name:  # otherwise the start of the link still uses that node\n            self._node_reg.remove_usage(self.end_node_name,",
          new="        if True:\n            self._node_reg.remove_usage(self.end_node_name,", rule="R-C14-5s"),
     dict(name="drop-discard-tanks", file=MODEL, old="            self._tanks.discard(key)\n", new="", rule="R-C14-3"),
